@@ -17,6 +17,7 @@ def install(I):
     S["etsi.crc.crc:BitCrcCalculator.calculate_checksum"] = crc_calculate
     S["etsi.crc.crc:BitCrcCalculator.verify_checksum"] = lambda *a: NotImplemented
     S["etsi.crc.crc:bits_create_lookup_table"] = crc_table
+    S["utils.bits_bytes:numpy_array_to_int"] = np_to_int
     S["etsi.fec.reed_solomon_12_9_4:ReedSolomon1294.log_multiply"] = rs_multiply
     for n in ("log_debug", "log_info", "log_warning", "log_error", "log_exception", "get_logger"):
         S[f"utils.logging_trait:LoggingTrait.{n}"] = lambda *a: None
@@ -48,6 +49,16 @@ def crc_table(I, fi, args, kw, bound_cls):
             return t
         cache[key] = [tuple(b.c for b in e.items) for e in t]
     return [ABits([cbit(x) for x in row], "ba") for row in cache[key]]
+
+
+def np_to_int(I, fi, args, kw, bound_cls):
+    """int(data.dot(2 ** arange(size)[::-1])): the 0/1 vector read as an unsigned integer, first element most significant"""
+    from .bitabs import AInt
+    v = args[0] if args else kw.get("data")
+    if isinstance(v, (ABits, AView)):
+        bits = list(v.items) if isinstance(v, ABits) else v.get()
+        return AInt(list(reversed(bits)) or [ZERO])
+    return NotImplemented
 
 
 def rs_multiply(I, fi, args, kw, bound_cls):
